@@ -259,6 +259,7 @@ def judge(case, out, m):
         where = f'{meth.upper()} {t}'
         for p in op.get('parameters', []): v += [('violation', 'invalid schema: ' + e) for e in schema_errors(p.get('schema'), doc, where + ' param ' + p.get('name', '?'))]
         for mime, c in op.get('requestBody', {}).get('content', {}).items(): v += [('violation', 'invalid schema: ' + e) for e in schema_errors(c.get('schema', {}), doc, where + ' body')]
+        if 'responses' in op and not op['responses']: v.append(('violation', f'{where}: an empty `responses` object (when present it MUST contain at least one response code, OpenAPI 3.1 4.8.16)'))
         for code, r in op.get('responses', {}).items():
             for mime, c in r.get('content', {}).items(): v += [('violation', 'invalid schema: ' + e) for e in schema_errors(c.get('schema', {}), doc, where + ' response ' + code)]
         declared = {p['name'] for p in op.get('parameters', []) if p.get('in') == 'path' and p.get('required') is True}
